@@ -511,7 +511,7 @@ func (e *c14Env) body(op *c14Op) Body {
 		atts := map[string]any{}
 		for _, a := range op.atts {
 			if a.isData {
-				atts[c14Names[a.name]] = map[string]any{"data": base64.StdEncoding.EncodeToString(e.pool[a.content]), "content_type": "application/octet-stream"}
+				atts[c14Names[a.name]] = map[string]any{"data": base64.StdEncoding.EncodeToString(e.pool[a.content])}
 			} else {
 				m := map[string]any{"stub": true, "digest": a.digest, "revpos": float64(a.revpos)}
 				if a.v2 {
@@ -933,6 +933,13 @@ func (e *c14Env) genAtts(r *vRand, d *c14DocObs, parent string, adversarial bool
 		return r.Intn(len(e.pool))
 	}
 	for n := range c14Names {
+		if len(atts) >= 2 {
+			// at most two attachments per generated revision: the "_attachments" stamped into a superseded
+			// winner's body then stays below MaximumInlineBodySize (250 bytes).  Larger non-winning bodies live in
+			// "_sync:rb:" documents written with AddRaw by every ATTEMPT (first write wins), which the model
+			// does not cover (see props/C14.json, assumptions)
+			break
+		}
 		var pm *c14Meta
 		if pl != nil {
 			if m, ok := pl.atts[c14Names[n]]; ok {
@@ -1534,12 +1541,12 @@ func TestVerifC14(t *testing.T) {
 		if c.ac && c.sw {
 			nExh = e.exhaustive(c14Len(3, 4))
 		}
-		n := vBudget(80, 1200)
+		n := vBudget(80, 600)
 		if c.ac && c.sw {
-			n = vBudget(200, 3000)
+			n = vBudget(200, 1500)
 		}
 		if !c.sw {
-			n = vBudget(25, 400)
+			n = vBudget(25, 200)
 		}
 		for i := 0; i < n; i++ {
 			e.randomCase(r, false, "random")
